@@ -45,24 +45,25 @@ class FixEmptySequenceComparison(
                     ) or self._is_empty_sequence(right):
                         self.report_change(original_node)
                         comp_var = right if empty_left else left
+                        negated = cst.UnaryOperation(
+                            operator=cst.Not(),
+                            expression=comp_var,
+                            # `1 + (x == [])` is not `1 + not x`: the parentheses stay
+                            lpar=original_node.lpar,
+                            rpar=original_node.rpar,
+                        )
                         match maybe_parent:
                             case cst.If() | cst.Assert():
                                 return (
                                     comp_var
                                     if isinstance(target.operator, cst.NotEqual)
-                                    else cst.UnaryOperation(
-                                        operator=cst.Not(),
-                                        expression=comp_var,
-                                    )
+                                    else negated
                                 )
                             case _:
                                 return (
                                     cst.parse_expression(f"bool({comp_var.value})")
                                     if isinstance(target.operator, cst.NotEqual)
-                                    else cst.UnaryOperation(
-                                        operator=cst.Not(),
-                                        expression=comp_var,
-                                    )
+                                    else negated
                                 )
 
         return original_node
